@@ -162,7 +162,8 @@ class msg_version(MsgSerializable):
         f.write(struct.pack(b"<Q", self.nNonce))
         VarStringSerializer.stream_serialize(self.strSubVer, f)
         f.write(struct.pack(b"<i", self.nStartingHeight))
-        f.write(struct.pack(b"<B", self.fRelay))
+        if self.nVersion >= 70001:
+            f.write(struct.pack(b"<B", self.fRelay))
 
     def __repr__(self):
         return "msg_version(nVersion=%i nServices=%i nTime=%s addrTo=%s addrFrom=%s nNonce=0x%016X strSubVer=%s nStartingHeight=%i fRelay=%r)" % (self.nVersion, self.nServices, time.ctime(self.nTime), repr(self.addrTo), repr(self.addrFrom), self.nNonce, self.strSubVer, self.nStartingHeight, self.fRelay)
